@@ -417,6 +417,11 @@ func runG7(r *Repo, rep *Report) {
 			if v["D"] {
 				return "existing", false
 			}
+			// the requested name belongs to a function for other types: the call is a conflict (not a second name for its own
+			// types), and with -autoname it is renamed — to the function that already exists for its types (fix cf2a44b)
+			if v["F"] && !v["E"] && v["A"] {
+				return "existing", false
+			}
 			return "error", false
 		case v["F"] && v["E"]:
 			return "requested", false
